@@ -1,6 +1,7 @@
 (* The reader model and the count model meet: a profile the reader accepts, handed to the count model the way
    Election.__init__ reads it, satisfies the hypotheses of the whole-run theorems (wf_profile, wf_profile_m). *)
 From Coq Require Import ZArith List Bool String Lia.
+From Droop Require Import Proofs.QuotaCount Proofs.ForwardCount.
 From Droop Require Import Model.KernelBase Model.Str Model.Arith Model.State Model.Prims Model.Prelude Model.Profile Model.ProfileSpec
   Model.Election Model.EndToEnd Proofs.Zlike Proofs.Gregory Proofs.Conserve Proofs.Forward Proofs.ParserLemmas Proofs.ConserveCount
   Proofs.MeekRun Proofs.MeekKfRun Proofs.MeekPrfRun Proofs.MeekCount Proofs.Terminate Proofs.TerminateMeek Proofs.Winners Proofs.Majority.
@@ -180,4 +181,22 @@ Proof.
   apply (count_majority_scotland A S ZL cfg Hex Hseat _ m fuel s k (proj1 (accepted_file_is_wf text p Hp)) ltac:(congruence)); [|lia|exact He|exact Hk].
   destruct (proj1 (vp_eligible p V m) Hel) as [Hr Hw]. apply live_cand; assumption.
 Qed.
+
+(* the quota of a Gregory count of an accepted file, in every snapshot: the prescribed function of the file's ballot count *)
+Theorem accepted_gregory_quota : 0 <= cf_nseats cfg -> R (epsilon A) = 1 -> exact A = false ->
+  forall r text p fuel s k, seat_rule r -> parse_file text = Ok p -> cf_nballots cfg = p_nBallots p ->
+  exec (@crashed A) fuel (count_cmd A cfg r) (init_state A cfg (to_count_profile p)) = Some (s, k) -> k <> Abort ->
+  let n := p_nBallots p in let st := cf_nseats cfg in
+  let q := match r with
+           | RWigm => if cf_integer_quota cfg then (1 + n / (st + 1)) * S else n * S / (st + 1) + 1
+           | RWigmPrf | RCfer => n * S / (st + 1) + 1
+           | _ => (n / (st + 1) + 1) * S
+           end in
+  R (quota s) = q /\ Forall (fun sn => R (as_quota sn) = q) (snaps A (actions s)).
+Proof.
+  intros Hns Heps Hex r text p fuel s k Hr Hp Hn He Hk. cbv zeta.
+  pose proof (count_quota_prescribed A S ZL cfg Hns Heps Hex r _ fuel s k Hr He Hk) as H.
+  unfold prescribed in H. rewrite Hn in H. exact H.
+Qed.
+
 End Accepted.
